@@ -17,6 +17,11 @@ class OT(BaseEvent):
     p: object = None
 
 
+class LegacyRQ(BaseEvent):
+    event_type: str = 'rq_v1'      # class-level override of the type name
+    p: object = None
+
+
 META = dict(
     explanation='A stream of 3 events of the expected type (plus one of another type) with z3-integer payloads p_i is dispatched at '
                 'symbolic instants; expect(type, include = p >= a, exclude = p >= b, timeout) with symbolic thresholds a, b is '
@@ -46,6 +51,10 @@ def t_expect(ctx):
     tcr = ctx.cfg.get('tc_range', ['0', '3/5'])
     t_c = ctx.real('t_c', Exact(tcr[0]), Exact(tcr[1])) if variant == 'cancel' else None
     a2 = ctx.int('a2', 0, pm) if variant == 'two' else None
+    T_EV = Exact('1/5')
+    dsr = ctx.cfg.get('ds_range', ['0', '2/5'])
+    d_s = ctx.real('d_s', Exact(dsr[0]), Exact(dsr[1])) if variant == 'slow_timeout' else None
+    RQcls = LegacyRQ if variant == 'override' else RQ
     ctx.new_loop(horizon=5)
     loop = ctx.loop
     bus = ctx.bus('A')
@@ -59,13 +68,20 @@ def t_expect(ctx):
     mon.__name__ = 'mon'
     bus.on(RQ, mon)
     bus.on(OT, mon)
+    if variant == 'override':
+        bus.on('rq_v1', mon)
+    if variant == 'slow_timeout':
+        async def slow(ev):
+            await asyncio.sleep(d_s)
+            return 'slow'
+        bus.on(RQ, slow)
     res = {}
     evs = []
 
     async def disp():
         await asyncio.sleep(t0)
         for i in range(3):
-            e = RQ(p=P[i], event_timeout=30.0)
+            e = RQcls(p=P[i], event_timeout=float(T_EV) if variant == 'slow_timeout' else 30.0)
             idx_of[e.event_id] = i
             evs.append(e)
             ctx.adopt(e, f'R{i}')
@@ -93,7 +109,7 @@ def t_expect(ctx):
         r = ctx.rec('EXP_CALL', tag=tag)
         res[tag] = dict(call_seq=r.seq, call_t=r.t)
         try:
-            ev = await bus.expect(RQ, **kw)
+            ev = await bus.expect(RQcls, **kw)
             res[tag]['got'] = ev
         except TimeoutError:
             res[tag]['got'] = 'timeout'
@@ -129,6 +145,15 @@ def t_expect(ctx):
     # ---- others unaffected: mon ran exactly once per dispatched event
     idxs = [idx_of[e.event_id] for (e, _, _) in seen]
     ctx.check('C18.others_unaffected', sorted(map(str, idxs)) == ['0', '1', '2', 'o'], seen=list(map(str, idxs)))
+    if variant == 'override':
+        # on this tree a class with an overridden event_type is registered under its class name, so expect() simply times out;
+        # what must hold in any case is the clean-up and that nothing non-matching is returned
+        for tag in ('e1',):
+            got = res[tag]['got']
+            ctx.check('C18.never_nonmatching', got in ('timeout', 'cancelled') or isinstance(got, LegacyRQ), tag=tag)
+            ctx.check('C18.unsubscribed', res[tag]['registry_after'] == res['reg0'], tag=tag, why='temporary handler still registered when expect() ended')
+            ctx.witness('timeout' if got == 'timeout' else 'match')
+        return
     ctx.check('C18.unsubscribed', res['reg_end'] == res['reg0'], why='handler registry differs after all expect() calls ended')
     for tag, lo, hi in (('e1', a, b), ('e2', a2, pm + 1)):
         if tag not in res:
@@ -139,10 +164,12 @@ def t_expect(ctx):
         deadline = r['call_t'] + TAU
         # reference over the recorded processing order
         cands = [(e, seq, t) for (e, seq, t) in seen if isinstance(e, RQ)]
+        from ..base import zite
+        lag = zite(d_s < T_EV, d_s, T_EV) if d_s is not None else 0   # the notify handler runs after the slow handler ended / timed out
         def cond(e, seq, t, strict):
             if seq < r['call_seq']:
                 return False
-            inwin = (t < deadline) if strict else (t <= deadline)
+            inwin = (t + lag < deadline) if strict else (t <= deadline)
             ok = zand(e.p >= lo, znot(e.p >= hi), inwin)
             if c is not None:
                 ok = zand(ok, znot(e.p == c))
@@ -184,10 +211,13 @@ def jobs(tier):
         out.append(Job('C18', 's1.expect', t_expect, dict(variant='basic', sym_te=False, t_e='1/4'), witnesses=W))
         out.append(Job('C18', 's1.expect', t_expect, dict(variant='predicate_raises', sym_te=False, t_e='0'), witnesses=W))
         out.append(Job('C18', 's1.expect', t_expect, dict(variant='two', sym_te=False, t_e='0', pmax=2), witnesses=W))
+        for rng in (['0', '1/10'], ['1/10', '1/5'], ['1/5', '3/10'], ['3/10', '2/5']):
+            out.append(Job('C18', 's1.expect', t_expect, dict(variant='slow_timeout', sym_te=False, t_e='0', pmax=1, ds_range=rng)))
+        out.append(Job('C18', 's1.expect', t_expect, dict(variant='override', sym_te=False, t_e='0', pmax=1)))
         for rng in (['0', '3/20'], ['3/20', '3/10'], ['3/10', '9/20'], ['9/20', '3/5']):
             out.append(Job('C18', 's1.expect', t_expect, dict(variant='cancel', sym_te=False, t_e='0', pmax=1, tc_range=rng)))
     else:
-        for v in ('basic', 'predicate_raises', 'two', 'cancel'):
+        for v in ('basic', 'predicate_raises', 'two', 'cancel', 'slow_timeout', 'override'):
             out.append(Job('C18', 's1.expect', t_expect, dict(variant=v, sym_te=True), max_paths=20000))
             for te in ('0', '1/10', '1/4', '2/5'):
                 out.append(Job('C18', 's1.expect', t_expect, dict(variant=v, sym_te=False, t_e=te), max_paths=20000))
